@@ -199,6 +199,9 @@ def generate(prop, rng, index, tier):
                                            "duplicate"]), "tok": rng.randrange(10000), "tok2": rng.randrange(10000)}])
         elif r < 0.84:
             ops.append(["LOAD", d])
+        elif r < 0.855:
+            # the NetCDF library: a variable that the file does not have, or data that is not of the declared kind
+            ops.append(["NCLOAD", rng.choice(["nosuchvar", "nosuchvar", "fuzzy"]), rng.randint(0, 6), rng.random() < 0.5])
         elif r < 0.87:
             # API: a command object constructed directly (as the test-suite does), validated when it runs
             ops.append(["DIRECT", rng.choice(["undeclared", "missing", "wrong-kind"]), rng.randint(2, 40), rng.randint(41, 90)])
@@ -447,6 +450,8 @@ def execute(sc):
                 hist[k].append("ok")
             elif op[0] == "DIRECT":
                 _direct(op, log, res, Program, MPilotError)
+            elif op[0] == "NCLOAD":
+                _ncload(op, log, res, Program, MPilotError)
             elif op[0] in ("LOAD", "CLI"):
                 di = op[1] % len(rendered)
                 doc = sc["docs"][di]
@@ -461,6 +466,72 @@ def execute(sc):
     res.schedule_key = h64(sc["ops"])
     res.nontrivial = len(sc["ops"]) >= 3
     return res
+
+
+def _ncload(op, log, res, Program, MPilotError):
+    """A NetCDF read that must fail: the error belongs to the read command, whose line is known."""
+    import os
+    kind, lead, via_cli = op[1], int(op[2]), bool(op[3])
+    nc = os.path.join(os.environ.get("MPSIM_SCRATCH", ""), "repo_test_data", "netcdf_test.nc")
+    if not os.path.exists(nc):
+        return
+    body = ['# a model over the NetCDF library', 'A = EEMSRead(', '    InFileName = "%s",' % nc,
+            '    InFieldName = %s%s' % ("no_such_variable" if kind == "nosuchvar" else "elevation",
+                                         "" if kind == "nosuchvar" else ",\n    DataType = Fuzzy"), ')',
+            'B = Copy(InFieldName = A)']
+    text = "\n" * lead + "\n".join(body) + "\n"
+    first, last = lead + 2, lead + 2 + text[text.index("A = "):].split(")")[0].count("\n")
+    libs = ("mpilot.libraries.eems.basic", "mpilot.libraries.eems.netcdf", "mpilot.libraries.eems.fuzzy")
+    exc, marked = None, None
+    if via_cli:
+        from ..simfs import SimFS
+        from ..seams import StdCapture
+        fs = SimFS(log, res, files={mf.MODEL_PATH: text}, dirs=[mf.WORK])
+        with fs, StdCapture(log) as cap:
+            try:
+                from mpilot.cli.mpilot import main
+                main.main(args=["eems-netcdf", mf.MODEL_PATH], standalone_mode=False)
+            except SystemExit:
+                pass
+            except SimAbort:
+                raise
+            except Exception as e:  # noqa
+                exc = e
+        m = re.search(r"^--> (.*)$", cap.err.getvalue(), re.M)
+        marked = m.group(1) if m else None
+        lines = text.split("\n")
+        log.emit("ncload", kind=kind, route="cli", marked=marked is not None)
+        res.probe("NetCDF read that fails, through the command-line tool")
+        if exc is not None:
+            res.observe("exception escaped from the CLI (C13's business)")
+            return
+        ok = [lines[i - 1] for i in range(first, last + 1)]
+        if marked is None:
+            if kind == "nosuchvar":
+                res.violate("C11.cli", "C11.cli no-marked-line netcdf-%s" % kind,
+                            "CLI marked no line for a read of a variable the file does not have (lines %d-%d)" % (first, last))
+        elif marked not in ok:
+            res.violate("C11.cli", "C11.cli wrong-marked-line netcdf-%s" % kind, "CLI marked %r, the read is %r" % (marked, ok))
+        return
+    try:
+        Program.from_source(text, libraries=libs).run()
+    except SimAbort:
+        raise
+    except Exception as e:  # noqa
+        exc = e
+    log.emit("ncload", kind=kind, route="lib", exc=type(exc).__name__ if exc else None)
+    res.probe("NetCDF read that fails: " + kind)
+    if exc is None or not isinstance(exc, MPilotError):
+        res.observe("NetCDF read: %s (C12/C13's business)" % (type(exc).__name__ if exc else "accepted"))
+        return
+    ln = getattr(exc, "lineno", None)
+    if ln is None:
+        if kind == "nosuchvar":
+            res.violate("C11.error", "C11.error no-lineno netcdf-%s %s" % (kind, type(exc).__name__),
+                        "%s carries no line (the read is on lines %d-%d)" % (type(exc).__name__, first, last))
+    elif not first <= ln <= last:
+        res.violate("C11.error", "C11.error wrong-lineno netcdf-%s %s" % (kind, type(exc).__name__),
+                    "%s carries line %r (the read is on lines %d-%d)" % (type(exc).__name__, ln, first, last))
 
 
 def _direct(op, log, res, Program, MPilotError):
